@@ -278,8 +278,12 @@ fn datesv(c: &mut Chooser, m: Modes, base: i16, label: &'static str) -> [i16; 12
     if !m.ints || !may(c, m) {
         return w;
     }
-    match c.cost(10, label) {
+    match c.cost(12, label) {
         0 => w,
+        // the library's witness modification time with another access time, and the reverse (consecutive date
+        // records that agree in one half only)
+        10 => [1001, 1002, 1003, 1004, 1005, 1006, 3007, 3008, 3009, 3010, 3011, 3012],
+        11 => [3001, 3002, 3003, 3004, 3005, 3006, 1007, 1008, 1009, 1010, 1011, 1012],
         // four-digit calendar years (some writers store them) and the values around that range
         7 => [2024, 2, 29, 13, 14, 15, 1999, 12, 31, 23, 59, 59],
         8 => [1900, 1, 1, 0, 0, 0, 2099, 12, 31, 23, 59, 59],
